@@ -152,3 +152,27 @@ class Probes(object):
                 for n in self.lines_hit
             },
         }
+
+
+def structure_digest(root, child_attr="children", fields=("leaf", "private", "exception", "value", "counter")):
+    """Digest of a live trie (SuffixTrie / TrieDict nodes) reached from its root node: used before and after a
+    workload to observe that queries do not mutate module-level shared state."""
+    import hashlib
+    h = hashlib.blake2b(digest_size=8)
+    stack = [(root, ())]
+    n = 0
+    while stack:
+        node, path = stack.pop()
+        n += 1
+        h.update(repr(path).encode("utf-8", "surrogatepass"))
+        for f in fields:
+            if hasattr(node, f):
+                v = getattr(node, f)
+                if isinstance(v, (set, frozenset)):
+                    v = sorted(v)
+                h.update(("%s=%r;" % (f, v if isinstance(v, (bool, int, str, list, type(None))) else type(v).__name__)).encode("utf-8", "surrogatepass"))
+        ch = getattr(node, child_attr, None)
+        if ch:
+            for k in sorted(ch, key=repr):
+                stack.append((ch[k], path + (k,)))
+    return "%d:%s" % (n, h.hexdigest())
